@@ -161,6 +161,26 @@ def gen_tables(ctx):
 # ---------------------------------------------------------------------------------------------
 # (D) end to end
 # ---------------------------------------------------------------------------------------------
+DESCRIPTIONS = [
+    ('described instructions', 'checks the thing'),
+    ('descriptions with format-significant characters', 'checks ${HOME} {0} {} {x!r} %s %(a)d'),
+    ('descriptions with a lone brace', 'a { b'),
+]
+
+
+def with_descriptions(text, desc):
+    out = []
+    phase = None
+    for line in text.split('\n'):
+        st = line.strip()
+        if st.startswith('[') and st.endswith(']'):
+            phase = st[1:-1]
+        elif st and phase not in (None, 'act') and not st.startswith('including') and not st.startswith('#'):
+            out.append('`%s`' % desc)
+        out.append(line)
+    return '\n'.join(out)
+
+
 def atc_line(code):
     return '$ echo ATCOUT; echo ATCERR >&2; exit %d' % code
 
@@ -252,9 +272,18 @@ def run(ctx, res):
                 'mode normal/--keep/--act x exit codes of the action to check {0,1,2,32,33,65,128,129,255} + random; run '
                 'through MainProgram.execute. non-trivial := not (pass in normal mode); distinct := (ending, status, mode, code)')
     n = 0
-    for code in codes:
+    for ci, code in enumerate(codes):
         for status in ('PASS', 'FAIL', 'SKIP'):
-            for (name, text, files, extra, result) in endings(code, status):
+            es = endings(code, status)
+            if ci < 2 or ci == len(codes) - 1:
+                # the same endings with an instruction description (`text` before the instruction) on every instruction outside
+                # [act]: a description is part of the error report of a located failure, and must not change code or identifier
+                for (name, text, files, extra, result) in list(es):
+                    if name == 'act phase syntax error':
+                        continue
+                    for dname, desc in DESCRIPTIONS:
+                        es.append((name + ' / ' + dname, with_descriptions(text, desc), files, extra, result))
+            for (name, text, files, extra, result) in es:
                 # under --act, when the act phase is not reached or assertions are skipped the constructed result differs:
                 for mode, margs in MODES.items():
                     r = result
@@ -290,10 +319,20 @@ def run(ctx, res):
                     shutil.rmtree(d, ignore_errors=True)
     # invalid usage
     usage_cases = []
-    for argv in (['--no-such-option', 'x.case'], ['missing-file.case'], ['--keep'], ['--act', '--keep', 'missing.case'],
-                 ['suite'], ['symbol']):
-        d = os.path.join(root, 'u%d' % len(usage_cases))
+    usage = [['--no-such-option', 'x.case'], ['missing-file.case'], ['--keep'], ['--act', '--keep', 'missing.case'],
+             ['suite'], ['symbol']]
+    # option values that are not a command line: empty, white space only, unbalanced quotes — with an existing, valid case file
+    for opt in ('--actor', '--preprocessor'):
+        for val in ('', ' ', ' \t ', "'unbalanced", '"unbalanced'):
+            for margs in ([], ['--keep'], ['--act']):
+                usage.append(margs + [opt, val, 'ok.case'])
+    for val in ('', ' ', "'unbalanced"):
+        usage.append(['suite', '--actor', val, 'ok.suite'])
+    for ui, argv in enumerate(usage):
+        d = os.path.join(root, 'u%d' % ui)
         os.makedirs(d)
+        open(os.path.join(d, 'ok.case'), 'w').write('[act]\n' + atc_line(0) + '\n')
+        open(os.path.join(d, 'ok.suite'), 'w').write('[cases]\nok.case\n')
         pr = impl.run_main(mp, argv, d, d)
         if pr.exception is not None:
             res.prop_failures.append(Failure('property', {'argv': argv}, 'exception escaped: %r' % pr.exception))
@@ -324,7 +363,7 @@ def act_mode_result(name, status, code, r):
     [cleanup] still happen (observed on the real program; README: "--act ... executes the act phase")."""
     if r[0] != 'executed' or status == 'SKIP':
         return r
-    if name in ('failing assertion', 'hard error in [assert]', 'hard error in [before-assert]'):
+    if name.split(' / ')[0] in ('failing assertion', 'hard error in [assert]', 'hard error in [before-assert]'):
         return ('executed', 'XPASS' if status == 'FAIL' else 'PASS', True, code)
     return r
 
